@@ -276,6 +276,11 @@ def run_schedule(case):
     frac = min(max(frac, 1e-9), 1.0)
     start, end = (float(rng.choice([1.0, 0.0, 0.4, -3.0, rng.normal()])),
                   float(rng.choice([0.1, 1.0, 0.0, 7.0, rng.normal()])))
+    # integer-typed arguments are valid numbers, too (end=1, start=0, ...)
+    if rng.random() < 0.35 and end == int(end):
+        end = int(end)
+    if rng.random() < 0.2 and start == int(start):
+        start = int(start)
     ok, s = guarded(res, "C18/raises/linear_schedule", linear_schedule,
                     total, start, end, frac)
     if not ok:
